@@ -81,6 +81,8 @@ func (s *Stream) Read(b []byte) (int, error) {
 			switch f := frame.(type) {
 			case *dataFrame:
 				if s.parsedTrailer {
+					// RFC 9114, Section 4.1: receipt of an invalid sequence of frames is a connection error of type H3_FRAME_UNEXPECTED.
+					s.conn.CloseWithError(quic.ApplicationErrorCode(ErrCodeFrameUnexpected), "")
 					return 0, errors.New("DATA frame received after trailers")
 				}
 				s.bytesRemainingInFrame = f.Length
@@ -88,6 +90,7 @@ func (s *Stream) Read(b []byte) (int, error) {
 			case *headersFrame:
 				if s.parsedTrailer {
 					maybeQlogInvalidHeadersFrame(s.qlogger, s.StreamID(), f.Length)
+					s.conn.CloseWithError(quic.ApplicationErrorCode(ErrCodeFrameUnexpected), "")
 					return 0, errors.New("additional HEADERS frame received after trailers")
 				}
 				s.parsedTrailer = true
